@@ -176,8 +176,8 @@ var propPartial = &ev.Prop[PartialCase]{Sub: "partial", Quick: 4000, Thorough: 2
 		return PartialCase{Entry: e, Typ: typ, Hex: ev.H(b), Cut: -1, How: how}
 	}, Check: checkPartial}
 
-func TestRegress(t *testing.T)     { propZero.Regress(t); propPartial.Regress(t) }
-func TestReplay(t *testing.T)      { _ = propZero.Replay(t) || propPartial.Replay(t) }
+func TestRegress(t *testing.T) { propZero.Regress(t); propPartial.Regress(t) }
+func TestReplay(t *testing.T)  { _ = propZero.Replay(t) || propPartial.Replay(t) }
 func TestPropPartial(t *testing.T) {
 	ev.R().Floor("partial:value-with-error", 1000)
 	propPartial.Run(t)
